@@ -1,5 +1,5 @@
 (* Extraction of the executable C15 model (ExtrOcamlBasic only; Z, positive, nat stay inductives). *)
 Require Extraction.
 Require Import ExtrOcamlBasic.
-From SDC Require Import Wsd.Udp.
-Extraction "Extract/wsd_udp_model.ml" schedule_us check_envelope drun mkParams.
+From SDC Require Import Wsd.Udp Wsd.Kinds.
+Extraction "Extract/wsd_udp_model.ml" schedule_us check_envelope drun mkParams kind_schedule_us kind_count_ok.
